@@ -500,3 +500,67 @@ class PathTracker:
             hidden, special = self._close(hidden, special, first_dot, dots)
             r = self._fin[S] = (hidden, special, not empty, nonsep, ends_sep, last_sep)
         return r
+
+
+# ================================================================ labelled-run filters (DESIGN 3.3, C03)
+
+def filter_runs(nfa, start, final, seps_mask, hidden_ok, special_ok, path):
+    """Product of a labelled reference NFA with a per-segment tracker; keeps only runs allowed by the policies.
+
+    Tracker per run: k (0 at segment start, 1/2 = segment so far is that many dots, 3 = anything else),
+    lead (0 = segment does not start with '.', 1 = leading dot consumed by a first-token written dot (LAB_DOT1),
+    2 = by another written dot, 3 = by a wildcard), allw (every dot of an all-dots segment consumed by a written dot).
+    When a segment closes (separator or end of name):
+      hidden non-special segment (lead != 0, not (path and k in 1,2)) -> hidden_ok(lead) must hold
+      special segment (path mode, k in 1,2)                          -> special_ok(lead, allw) must hold
+    Returns (RefNFA-like object, start, final) accepted by RevDFA.
+    """
+    out = RefNFA(nfa.alphabet, nfa.mode)
+    ids = {}
+    order = []
+
+    def sid(key):
+        i = ids.get(key)
+        if i is None:
+            i = ids[key] = out.new()
+            order.append(key)
+        return i
+
+    def closes_ok(k, lead, allw):
+        if lead == 0:
+            return True
+        if path and k in (1, 2):
+            return special_ok(lead, allw)
+        return hidden_ok(lead)
+
+    dot = nfa.dot_mask
+    s0 = sid((start, 0, 0, True))
+    fin = out.new()
+    i = 0
+    while i < len(order):
+        q, k, lead, allw = order[i]
+        me = ids[order[i]]
+        i += 1
+        if q == final and closes_ok(k, lead, allw):
+            out.eps[me].append(fin)
+        for t in nfa.eps[q]:
+            out.eps[me].append(sid((t, k, lead, allw)))
+        for mask, t, lab in nfa.tr[q]:
+            # separators
+            m_sep = mask & seps_mask
+            if m_sep and closes_ok(k, lead, allw):
+                out.tr[me].append((m_sep, sid((t, 0, 0, True)), lab))
+            m_dot = mask & dot & ~seps_mask
+            if m_dot:
+                written = lab in (LAB_DOT, LAB_DOT1)
+                if k == 0:
+                    nl = 1 if lab == LAB_DOT1 else 2 if lab == LAB_DOT else 3
+                    out.tr[me].append((m_dot, sid((t, 1, nl, written)), lab))
+                elif k in (1, 2):
+                    out.tr[me].append((m_dot, sid((t, k + 1, lead, allw and written)), lab))
+                else:
+                    out.tr[me].append((m_dot, sid((t, 3, lead, allw)), lab))
+            m_oth = mask & ~dot & ~seps_mask
+            if m_oth:
+                out.tr[me].append((m_oth, sid((t, 3, lead, allw)), lab))
+    return out, s0, fin
